@@ -21,6 +21,8 @@ def obligations(tier):
                                   {"VF_M": 4, "VF_FIRST": f, "VF_SECOND": g}, funcs=(IN + "complex_sustain_from_parsed_datas",),
                                   bounds="4 data, first two indices fixed per partition"))
     obs += [
+        Ob("C03.sustain_subsets", "CH", "harness.h_instrument", "sustain_subsets", 900, funcs=(IN + "complex_sustain_from_parsed_datas", IN + "_refined_sustain_tuple"),
+           bounds="all 31 lane subsets (up to 5 lane lines + a flag line), one symbolic base length, one lane differing by a symbolic delta"),
         Ob("C03.longest_and_end", "CH", "harness.h_instrument", "longest_and_end", 300, funcs=(IN + "NoteEvent.longest_sustain", IN + "NoteEvent.end_tick", IN + "NoteEvent._longest_sustain", IN + "NoteEvent._end_tick")),
         Ob("C03.note_event_dataflow", "CH", "harness.h_instrument", "note_event_dataflow", 300, funcs=(IN + "NoteEvent.from_parsed_data",),
            bounds="end_timestamp is the tempo-map time of tick+max length, asked with the start's returned hint"),
